@@ -173,7 +173,14 @@ def _main():
             # (e.g. a task_level that is not a list, a non-numeric timestamp).
             stdout.write("Not an Eliot message: {}\n\n".format(line.rstrip(b"\n")))
             continue
-        stdout.write(result)
+        try:
+            stdout.write(result)
+        except UnicodeEncodeError:
+            # Field names, the task uuid and the task level are written as
+            # they are (only field values are escaped by the formatters), so
+            # e.g. a lone surrogate in one of them cannot be encoded.
+            encoding = getattr(stdout, "encoding", None) or "utf-8"
+            stdout.write(result.encode(encoding, "backslashreplace").decode(encoding))
 
 
 __all__ = ["pretty_format", "compact_format"]
